@@ -51,8 +51,25 @@ def _keys(d: D, hi: int) -> list[str]:
     return out
 
 
+def _nest(leaf: dict, levels: int) -> dict:
+    cur = leaf
+    for _ in range(levels):
+        cur = {"k": cur}
+    return cur
+
+
+def _nest_depth(v: Any) -> int:
+    n = 0
+    while isinstance(v, dict) and set(v) == {"k"}:
+        v, n = v["k"], n + 1
+    return n
+
+
 def _kwargs(d: D) -> dict:
     kw = {k: _value(d) for k in _keys(d, 3)}
+    if d.pct(4):
+        # an option that is a mapping nested far deeper than usual: "at every depth" has no limit
+        kw["deep"] = _nest({"x": 1, "y": 2}, d.pick([7, 9, 12, 20]))
     if d.pct(45):
         # options that are themselves sections (logging-style dicts) are what deep merging is for
         kw[d.pick(["a", "b", "opts"])] = {key: _value(d, 1) for key in (_keys(d, 3) or ["a"])}
@@ -79,6 +96,10 @@ def _override(d: D, base: dict, depth: int = 0) -> dict:
     out: dict[str, Any] = {}
     for k, v in base.items():
         r = d.int(0, 99)
+        if k == "deep" and depth == 0 and _nest_depth(v) >= 7:
+            if r < 80:
+                out[k] = _nest({"y": 3, "z": 4}, _nest_depth(v))  # touches only the innermost level
+            continue
         if r < 40:
             continue
         if isinstance(v, (dict, int, float)) and r < 48 and _retyped(v) is not v and repr(_retyped(v)) != repr(v):
